@@ -15,7 +15,7 @@ HS_NAME = {0: "HR", 1: "CH", 2: "SH", 3: "HVR", 11: "CERT", 12: "SKE", 13: "CR",
 OPEN_DEVIATIONS = ["ServerSkipsClientAuth"]
 
 ALL_RULES = ["MustResend", "Sequencing", "Reassembly", "FlightContent", "RetransmitLastFlight", "Decrypt",
-             "KeyDerivation", "ConnectedOnlyWhenSpecConnects", "KeyAgreement", "Auth", "FailOnlyWhenSpecFails",
+             "KeyDerivation", "ConnectedOnlyWhenSpecConnects", "KeyAgreement", "Auth", "AuthServer", "FailOnlyWhenSpecFails",
              "StateProjection", "EXT"]
 
 
@@ -159,11 +159,15 @@ def normalise(outcome):
                 for h in r.get("hs", []):
                     splits[(e["dir"], h["t"], h["ms"])] = e["n"]
         elif e["ev"] == "rw":
-            for o in e.get("outs", []):
+            what = (e.get("arg") or {}).get("what", "")
+            outs = e.get("outs", [])
+            oms = (e.get("orig_ms") or [None])[0]
+            if what.startswith("inj_"):
+                outs = outs[:1]            # the record the adversary built; the original follows untouched
+            for o in outs:
                 for r in o:
                     for h in r.get("hs", []):
-                        rewritten[(e["dir"], h["bh"])] = (e["arg"].get("what", ""), h["t"], h.get("oms", h["ms"]),
-                                                         h.get("inj", ""))
+                        rewritten[(e["dir"], h["bh"])] = (what, h["t"], h["ms"] if oms is None or what.startswith("inj_") else oms, "")
     # everything after the harness's `end` marker is teardown (close_notify etc.)
     end_seq = min([e["seq"] for e in evs if e.get("comp") == "net" and e["ev"] == "end"] or [1 << 62])
     dtls = [e for e in evs if e.get("comp") == "dtls" and e["seq"] < end_seq]
@@ -222,6 +226,7 @@ def normalise(outcome):
                         rw, _, oms, inj = rewritten[key]
             if rw.startswith("inj_"):
                 inj, rw = rw, ""
+                bad = disp == "acc"      # bytes of the adversary's own making (the model marks them the same way)
             out.append({"ev": "hs", "inst": inst, "t": t, "ms": ms, "oms": oms, "disp": disp, "fi": fi, "nf": nf,
                         "bad": bad, "rw": rw, "inj": inj, "seq": e["seq"]})
         elif ev == "flight":
